@@ -128,31 +128,33 @@ Qed.
 
 Section Positions.
 Variable St : Type.
-Variable it_get : St -> St * outcome bytes.
+Variable it_get : St -> St * outcome (option bytes).
 Variable it_next : St -> St.
-Variable Rep : St -> list bytes -> Prop.
+Variable Rep : St -> list bytes -> bool -> Prop.
 Hypothesis laws : iter_laws it_get it_next Rep.
 
 Definition pos_of (k : nat) (c : chunk) : jpos := if (0 <? k)%nat then (c_id c, chunk_count c) else (0%N, 0%N).
 
 (* one round on a journal whose last chunk has room: the shape of the result *)
-Lemma jw_round_shape : forall rd fuel cfg j s ex l, Rep s l -> (length l < fuel)%nat ->
+Lemma jw_round_shape : forall rd fuel cfg j s ex l fl, Rep s l fl -> (length l < fuel)%nat ->
   pick_chunk j ex <> [] -> c_size (last (pick_chunk j ex) (new_chunk j)) < max_chunk cfg ->
-  exists k c' s', jw_loop St it_get it_next (S rd) fuel cfg j s ex = Ok (removelast (pick_chunk j ex) ++ [c'], s', k, pos_of k c', WNil) /\
+  exists k c' s' e, jw_loop St it_get it_next (S rd) fuel cfg j s ex = Ok (removelast (pick_chunk j ex) ++ [c'], s', k, pos_of k c', e) /\
     c_recs c' = c_recs (last (pick_chunk j ex) (new_chunk j)) ++ firstn k l /\
     c_id c' = c_id (last (pick_chunk j ex) (new_chunk j)) /\
-    Rep s' (skipn k l) /\ (k <= length l)%nat /\ (l <> [] -> (1 <= k)%nat).
+    Rep s' (skipn k l) fl /\ (k <= length l)%nat /\ (l <> [] -> (1 <= k)%nat /\ e = WNil) /\ (l = [] -> e = end_err fl).
 Proof.
-  intros rd fuel cfg j s ex l HR Hf Hne Hroom. cbn [jw_loop].
+  intros rd fuel cfg j s ex l fl HR Hf Hne Hroom. cbn [jw_loop].
   set (j1 := pick_chunk j ex) in *. set (c := last j1 (new_chunk j)) in *.
-  destruct (chunk_write_spec St it_get it_next Rep laws fuel cfg c s l HR Hf) as (k & c' & s' & e & Hrun & Hrecs & Hid & HR' & Hk & He & Hroom' & _).
+  destruct (chunk_write_spec St it_get it_next Rep laws fuel cfg c s l fl HR Hf) as (k & c' & s' & e & Hrun & Hrecs & Hid & HR' & Hk & He & Hroom' & _).
   rewrite Hrun. cbn [obind]. unfold set_last, pos_of.
   destruct (Nat.ltb_spec 0 k) as [Hpos|Hzero].
-  - exists k, c', s'. rewrite (proj2 (Nat.ltb_lt 0 k) Hpos).
-    split; [reflexivity|]. split; [exact Hrecs|]. split; [exact Hid|]. split; [exact HR'|]. split; [exact Hk|]. intros _. lia.
+  - exists k, c', s', WNil. rewrite (proj2 (Nat.ltb_lt 0 k) Hpos).
+    split; [reflexivity|]. split; [exact Hrecs|]. split; [exact Hid|]. split; [exact HR'|]. split; [exact Hk|].
+    split; [intros _; split; [lia|reflexivity]|intros ->; cbn in Hk; lia].
   - assert (k = O) by lia. subst k. destruct (Hroom' Hroom eq_refl) as [-> ->].
-    exists O, c', s'. cbn [Nat.ltb Nat.leb].
-    split; [reflexivity|]. split; [exact Hrecs|]. split; [exact Hid|]. split; [exact HR'|]. split; [exact Hk|]. congruence.
+    exists O, c', s', (end_err fl). cbn [Nat.ltb Nat.leb].
+    split; [destruct fl; reflexivity|]. split; [exact Hrecs|]. split; [exact Hid|]. split; [exact HR'|]. split; [exact Hk|].
+    split; [congruence|reflexivity].
 Qed.
 
 Lemma jw_loop_unfold rd fuel cfg j s ex :
@@ -173,23 +175,23 @@ Proof. reflexivity. Qed.
 
 (* journal.Write: shape of the result.  [pre ++ [c0]] is the journal after GetChunkForWrite (possibly after the
    roll-over), [c'] is c0 with the k new records *)
-Theorem journal_write_shape : forall fuel cfg j s l, 0 < max_chunk cfg -> Rep s l -> (length l < fuel)%nat -> ids_ok j ->
-  exists k pre c0 c' s',
-    journal_write St it_get it_next fuel cfg j s = Ok (pre ++ [c'], s', k, pos_of k c', WNil) /\
+Theorem journal_write_shape : forall fuel cfg j s l fl, 0 < max_chunk cfg -> Rep s l fl -> (length l < fuel)%nat -> ids_ok j ->
+  exists k pre c0 c' s' e,
+    journal_write St it_get it_next fuel cfg j s = Ok (pre ++ [c'], s', k, pos_of k c', e) /\
     c_recs c' = c_recs c0 ++ firstn k l /\ c_id c' = c_id c0 /\
-    Rep s' (skipn k l) /\ (k <= length l)%nat /\ (l <> [] -> (1 <= k)%nat) /\
+    Rep s' (skipn k l) fl /\ (k <= length l)%nat /\ (l <> [] -> (1 <= k)%nat /\ e = WNil) /\ (l = [] -> e = end_err fl) /\
     flat (pre ++ [c0]) = flat j /\ ids_ok (pre ++ [c0]) /\
     (forall x, In x (ids j) -> In x (ids (pre ++ [c0]))) /\
     (forall p, In (fst p) (ids j) -> pos_offset (pre ++ [c0]) p = pos_offset j p).
 Proof.
-  intros fuel cfg j s l Hmax HR Hf Hids. unfold journal_write.
+  intros fuel cfg j s l fl Hmax HR Hf Hids. unfold journal_write.
   destruct j as [|cj0 jr] eqn:Ej.
   - (* no chunk yet *)
-    destruct (jw_round_shape 2 fuel cfg [] s 0%N l HR Hf) as (k & c' & s' & Hrun & H1 & H2 & H3 & H4 & H5);
+    destruct (jw_round_shape 2 fuel cfg [] s 0%N l fl HR Hf) as (k & c' & s' & e & Hrun & H1 & H2 & H3 & H4 & H5 & H6);
       [discriminate|cbn; exact Hmax|].
     change (pick_chunk [] 0%N) with [new_chunk []] in *. cbn [removelast last app] in Hrun, H1, H2.
-    exists k, [], (new_chunk []), c', s'. cbn [app]. rewrite Hrun.
-    split; [reflexivity|]. split; [exact H1|]. split; [exact H2|]. split; [exact H3|]. split; [exact H4|]. split; [exact H5|].
+    exists k, [], (new_chunk []), c', s', e. cbn [app]. rewrite Hrun.
+    split; [reflexivity|]. split; [exact H1|]. split; [exact H2|]. split; [exact H3|]. split; [exact H4|]. split; [exact H5|]. split; [exact H6|].
     split; [reflexivity|]. split; [cbn; lia|]. split; [intros x []|intros p []].
   - rewrite <- Ej in *. assert (Hne : j <> []) by (rewrite Ej; discriminate). clear Ej cj0 jr.
     set (cl := last j (new_chunk j)).
@@ -201,17 +203,17 @@ Proof.
       destruct (N.eqb_spec (c_id cl) 0%N); [contradiction|reflexivity]. }
     destruct (Z.ltb_spec (c_size cl) (max_chunk cfg)) as [Hroom|Hfull].
     + (* the last chunk has room *)
-      destruct (jw_round_shape 2 fuel cfg j s 0%N l HR Hf) as (k & c' & s' & Hrun & H1 & H2 & H3 & H4 & H5);
+      destruct (jw_round_shape 2 fuel cfg j s 0%N l fl HR Hf) as (k & c' & s' & e & Hrun & H1 & H2 & H3 & H4 & H5 & H6);
         [rewrite Hp; exact Hne|rewrite Hp; exact Hroom|].
       rewrite Hp in *. fold cl in H1, H2.
-      exists k, (removelast j), cl, c', s'. rewrite Hrun.
+      exists k, (removelast j), cl, c', s', e. rewrite Hrun.
       assert (Ej : removelast j ++ [cl] = j) by (symmetry; apply last_split; exact Hne).
       rewrite Ej.
-      split; [reflexivity|]. split; [exact H1|]. split; [exact H2|]. split; [exact H3|]. split; [exact H4|]. split; [exact H5|].
+      split; [reflexivity|]. split; [exact H1|]. split; [exact H2|]. split; [exact H3|]. split; [exact H4|]. split; [exact H5|]. split; [exact H6|].
       split; [reflexivity|]. split; [exact Hids|]. split; [intros x Hx; exact Hx|intros p _; reflexivity].
     + (* full: flushed, excluded; a fresh chunk after it takes the records *)
       rewrite jw_loop_unfold. cbv zeta. rewrite Hp. fold cl.
-      destruct (chunk_write_spec St it_get it_next Rep laws fuel cfg cl s l HR Hf) as (k0 & c0' & s0 & e0 & Hrun0 & _ & _ & _ & _ & _ & _ & Hfl).
+      destruct (chunk_write_spec St it_get it_next Rep laws fuel cfg cl s l fl HR Hf) as (k0 & c0' & s0 & e0 & Hrun0 & _ & _ & _ & _ & _ & _ & Hfl).
       destruct (Hfl Hfull) as (-> & -> & -> & ->). rewrite Hrun0. cbn [obind Nat.ltb Nat.leb].
       destruct (N.eqb_spec (c_id cl) 0%N) as [E|_]; [contradiction|].
       set (j3 := set_last j (flush_chunk cl)).
@@ -220,12 +222,13 @@ Proof.
       assert (Hids3 : ids j3 = ids j) by (apply ids_set_last_flush; exact Hne).
       assert (Hpick : pick_chunk j3 (c_id cl) = j3 ++ [new_chunk j3]).
       { unfold pick_chunk, j3, set_last. rewrite rev_app_distr. cbn [rev app flush_chunk c_id]. rewrite N.eqb_refl. reflexivity. }
-      destruct (jw_round_shape 1 fuel cfg j3 s (c_id cl) l HR Hf) as (k & c' & s' & Hrun & H1 & H2 & H3 & H4 & H5).
+      destruct (jw_round_shape 1 fuel cfg j3 s (c_id cl) l fl HR Hf) as (k & c' & s' & e & Hrun & H1 & H2 & H3 & H4 & H5 & H6).
       * rewrite Hpick. destruct j3; discriminate.
       * rewrite Hpick, last_snoc. cbn. exact Hmax.
       * rewrite Hpick, removelast_snoc, last_snoc in *.
-        exists k, j3, (new_chunk j3), c', s'. rewrite Hrun.
-        repeat split; try assumption; try reflexivity.
+        exists k, j3, (new_chunk j3), c', s', e. rewrite Hrun.
+        split; [reflexivity|]. split; [exact H1|]. split; [exact H2|]. split; [exact H3|]. split; [exact H4|]. split; [exact H5|]. split; [exact H6|].
+        split; [|split; [|split]].
         -- rewrite flat_app, flat_single. cbn [new_chunk c_recs]. rewrite app_nil_r. exact Hj3.
         -- unfold ids_ok. rewrite ids_app. cbn [ids map new_chunk c_id]. rewrite inc_from_snoc. rewrite Hids3. split; [exact Hids|].
            rewrite last_id_eq, Hids3. lia.
@@ -244,11 +247,11 @@ Lemma flat_length_snoc pre c : length (flat (pre ++ [c])) = (length (flat pre) +
 Proof. rewrite flat_app, flat_single, app_length. reflexivity. Qed.
 
 Section ServicePositions.
-Variable T : Type.
-Variable lit_get : T -> T * outcome levent.
-Variable lit_next : T -> T.
-Variable RepL : T -> list levent -> Prop.
-Hypothesis lawsL : iter_laws lit_get lit_next RepL.
+Variable St : Type.
+Variable g : St -> St * outcome (option bytes).
+Variable nx : St -> St.
+Variable Rep : St -> list bytes -> bool -> Prop.
+Hypothesis laws : iter_laws g nx Rep.
 
 (* what is known about the write event while Service.Write's loop runs: [base] = number of records of the
    partition before the write *)
@@ -258,27 +261,24 @@ Definition we_inv (j : journal) (base : nat) (we : option wevent) : Prop :=
   | Some (st, en) => pos_offset j st = base /\ pos_offset j en = length (flat j) /\ In (fst st) (ids j) /\ In (fst en) (ids j)
   end.
 
-Lemma sw_loop_pos : forall rounds fuel cfg j s we evs base, 0 < max_chunk cfg -> RepL s evs ->
-  (length evs < rounds)%nat -> (length evs < fuel)%nat -> ids_ok j ->
-  (N.of_nat (length (flat j) + length evs) < 4294967296)%N ->
+Lemma sw_loop_pos : forall rounds fuel cfg j s we l fl base, 0 < max_chunk cfg -> Rep s l fl ->
+  (length l < rounds)%nat -> (length l < fuel)%nat -> ids_ok j ->
+  (N.of_nat (length (flat j) + length l) < 4294967296)%N ->
   we_inv j base we ->
-  exists j' s' we', sw_loop T lit_get lit_next rounds fuel cfg j s we = Ok (j', s', we', false) /\
-    flat j' = flat j ++ map iw_rec evs /\ ids_ok j' /\ we_inv j' base we' /\
-    (evs <> [] -> we' <> None) /\ (we <> None -> we' <> None).
+  exists j' s' we', sw_loop St g nx rounds fuel cfg j s we = Ok (j', s', we', fl) /\
+    flat j' = flat j ++ l /\ ids_ok j' /\ we_inv j' base we' /\
+    (l <> [] -> we' <> None) /\ (we <> None -> we' <> None) /\ (l = [] -> we' = we).
 Proof.
-  induction rounds as [|rd IH]; intros fuel cfg j s we evs base Hmax HR Hr Hf Hids Hcnt Hinv; [lia|].
+  induction rounds as [|rd IH]; intros fuel cfg j s we l fl base Hmax HR Hr Hf Hids Hcnt Hinv; [lia|].
   cbn [sw_loop].
-  assert (HRi : rep_iw T RepL s (map iw_rec evs)) by (exists evs; split; [exact HR|reflexivity]).
-  destruct (journal_write_shape T _ _ (rep_iw T RepL) (iw_laws T lit_get lit_next RepL lawsL) fuel cfg j s (map iw_rec evs)
-              Hmax HRi ltac:(rewrite map_length; exact Hf) Hids)
-    as (k & pre & c0 & c' & s1 & Hjw & Hrecs & Hid & (evs1 & HR1 & E1) & Hk & Hk1 & Hflat0 & Hids0 & Hsub & Hstab).
+  destruct (journal_write_shape St g nx Rep laws fuel cfg j s l fl Hmax HR Hf Hids)
+    as (k & pre & c0 & c' & s1 & e & Hjw & Hrecs & Hid & HR1 & Hk & Hk1 & Hnil & Hflat0 & Hids0 & Hsub & Hstab).
   rewrite Hjw. cbn [obind].
-  rewrite skipn_map in E1. rewrite map_length in Hk.
   set (j1 := pre ++ [c']) in *.
   (* facts about j1 *)
   assert (Hids1eq : ids j1 = ids (pre ++ [c0])) by (unfold j1; rewrite !ids_app; cbn [ids map]; rewrite Hid; reflexivity).
   assert (Hids1 : ids_ok j1) by (unfold ids_ok; rewrite Hids1eq; exact Hids0).
-  assert (Hfl1 : flat j1 = flat j ++ firstn k (map iw_rec evs)).
+  assert (Hfl1 : flat j1 = flat j ++ firstn k l).
   { unfold j1. rewrite flat_app, flat_single, Hrecs, app_assoc, <- Hflat0, flat_app, flat_single. reflexivity. }
   assert (Hsub1 : forall x, In x (ids j) -> In x (ids j1)) by (intros x Hx; rewrite Hids1eq; apply Hsub; exact Hx).
   assert (Hstab1 : forall p, In (fst p) (ids j) -> pos_offset j1 p = pos_offset j p).
@@ -286,7 +286,7 @@ Proof.
     destruct (off_same_ids pre c0 c' p Hid) as [E|E]; [exact E|exfalso; apply E; apply Hsub; exact Hp]. }
   assert (Hend : pos_offset j1 (c_id c', chunk_count c') = length (flat j1)).
   { unfold j1 at 1. rewrite off_last by exact Hids1. unfold j1. rewrite flat_length_snoc. unfold chunk_count. lia. }
-  assert (Hlenk : length (firstn k (map iw_rec evs)) = k) by (rewrite firstn_length, map_length; lia).
+  assert (Hlenk : length (firstn k l) = k) by (rewrite firstn_length; lia).
   assert (Hcnt1 : length (flat j1) = (length (flat j) + k)%nat) by (rewrite Hfl1, app_length, Hlenk; reflexivity).
   assert (Hstart : (0 < k)%nat -> pos_offset j1 (c_id c', u32_sub (chunk_count c') k) = length (flat j)).
   { intros Hpos. unfold j1 at 1. rewrite off_last by exact Hids1.
@@ -316,64 +316,73 @@ Proof.
   assert (Hwe1 : (0 < k)%nat -> we1 <> None) by (intros Hpos; unfold we1; rewrite (proj2 (Nat.ltb_lt 0 k) Hpos); discriminate).
   assert (Hwe1' : we <> None -> we1 <> None).
   { intros Hw. unfold we1. destruct (0 <? k)%nat; [discriminate|exact Hw]. }
+  assert (Hwe0 : k = O -> we1 = we) by (intros ->; reflexivity).
   fold we1.
-  destruct (skipn k evs) as [|e rest] eqn:Esk.
-  - (* everything written *)
-    assert (evs1 = []) by (destruct evs1; [reflexivity|discriminate]). subst evs1.
-    destruct (proj1 lawsL s1 HR1) as (s2 & Hg & HR2).
-    unfold iw_get at 1. rewrite Hg.
-    exists j1, s2, we1. split; [reflexivity|]. split.
-    { rewrite Hfl1. f_equal. rewrite firstn_map. f_equal. apply firstn_skipn_nil. exact Esk. }
-    split; [exact Hids1|]. split; [exact Hinv1|]. split; [|exact Hwe1'].
-    intros Hne. apply Hwe1. assert (map iw_rec evs <> []) by (destruct evs; [contradiction|discriminate]). specialize (Hk1 H). lia.
-  - (* more pending *)
-    destruct evs1 as [|e1 rest1]; [discriminate|]. cbn [map] in E1.
-    destruct (proj2 lawsL s1 e1 rest1 HR1) as (s2 & Hg & HR2 & _).
-    unfold iw_get at 1. rewrite Hg.
-    assert (Hlen : length (skipn k evs) = (length evs - k)%nat) by apply skipn_length.
-    assert (Hne : map iw_rec evs <> []) by (destruct evs; [cbn in Esk; rewrite skipn_nil in Esk; discriminate|discriminate]).
-    specialize (Hk1 Hne). rewrite Esk in Hlen. cbn [length] in Hlen.
-    assert (Hsame : map iw_rec (e1 :: rest1) = map iw_rec (e :: rest)) by (cbn [map]; symmetry; exact E1).
-    assert (Hl1 : length (e1 :: rest1) = length (e :: rest)) by (rewrite <- (map_length iw_rec), Hsame, map_length; reflexivity).
-    destruct (IH fuel cfg j1 s2 we1 (e1 :: rest1) base Hmax HR2) as (j' & s' & we' & Hrun & Hfl' & Hids' & Hinv' & _ & Hn').
-    + cbn [length] in *. lia.
-    + cbn [length] in *. lia.
-    + exact Hids1.
-    + rewrite Hcnt1. cbn [length] in *. lia.
-    + exact Hinv1.
-    + exists j', s', we'. split; [exact Hrun|]. split.
-      { rewrite Hfl', Hfl1, Hsame, <- Esk, <- app_assoc, firstn_map, <- map_app, firstn_skipn. reflexivity. }
-      split; [exact Hids'|]. split; [exact Hinv'|]. split; intros _; apply Hn'; apply Hwe1; lia.
-Qed.
-
-(* C01_positions: Service.Write on a partition with [base] records and a batch of n events: when n > 0 the
-   WriteEvent's StartPos is the position of record number base and EndPos the position after record number
-   base + n - 1 (= the end of the partition); when n = 0 there is no event *)
-Theorem write_positions : forall fuel cfg j s evs, 0 < max_chunk cfg -> RepL s evs -> (length evs < fuel)%nat -> ids_ok j ->
-  (N.of_nat (length (flat j) + length evs) < 4294967296)%N ->
-  exists j' s' we, sw_loop T lit_get lit_next fuel fuel cfg j s None = Ok (j', s', we, false) /\
-    flat j' = flat j ++ map iw_rec evs /\ ids_ok j' /\
-    match we with
-    | None => evs = []
-    | Some (st, en) => evs <> [] /\ pos_offset j' st = length (flat j) /\ pos_offset j' en = length (flat j')
-    end.
-Proof.
-  intros fuel cfg j s evs Hmax HR Hf Hids Hcnt.
-  destruct (sw_loop_pos fuel fuel cfg j s None evs (length (flat j)) Hmax HR Hf Hf Hids Hcnt eq_refl)
-    as (j' & s' & we & Hrun & Hfl & Hids' & Hinv & Hne & _).
-  exists j', s', we. split; [exact Hrun|]. split; [exact Hfl|]. split; [exact Hids'|].
-  destruct we as [[st en]|].
-  - destruct Hinv as (I1 & I2 & _). split; [|split; assumption].
-    (* an event exists only if something was written *)
-    intros ->. revert Hrun. destruct fuel as [|f]; [cbn in Hf; lia|]. clear - lawsL HR Hmax Hids.
-    intros Hrun. cbn [sw_loop] in Hrun.
-    assert (HRi : rep_iw T RepL s (map iw_rec [])) by (exists []; split; [exact HR|reflexivity]).
-    destruct (journal_write_shape T _ _ (rep_iw T RepL) (iw_laws T lit_get lit_next RepL lawsL) (S f) cfg j s (map iw_rec [])
-                Hmax HRi ltac:(cbn; lia) Hids) as (k & pre & c0 & c' & s1 & Hjw & _ & _ & (evs1 & HR1 & E1) & Hk & _).
-    rewrite Hjw in Hrun. cbn [obind] in Hrun. cbn in Hk. assert (k = O) by lia. subst k.
-    cbn [Nat.ltb Nat.leb] in Hrun. destruct evs1; [|cbn in E1; discriminate].
-    destruct (proj1 lawsL s1 HR1) as (s2 & Hg & _). unfold iw_get at 1 in Hrun. rewrite Hg in Hrun. discriminate.
-  - destruct evs as [|e evs]; [reflexivity|]. exfalso. apply Hne; [discriminate|reflexivity].
+  destruct l as [|r l'].
+  - (* nothing pending: the call reports how the iterator ended, no event is made *)
+    rewrite (Hnil eq_refl). cbn [length] in Hk. assert (Hk0 : k = O) by lia.
+    rewrite Hk0 in Hfl1. cbn [firstn] in Hfl1.
+    assert (HR1' : Rep s1 [] fl) by (rewrite Hk0 in HR1; exact HR1).
+    destruct fl; cbn [end_err].
+    + exists j1, s1, we1. rewrite Hk0 at 1. cbn [Nat.leb].
+      split; [reflexivity|]. split; [exact Hfl1|]. split; [exact Hids1|]. split; [exact Hinv1|].
+      split; [congruence|]. split; [exact Hwe1'|intros _; apply Hwe0; exact Hk0].
+    + destruct (proj1 laws s1 false HR1') as (s2 & Hg & HR2). rewrite Hg. cbn [end_res].
+      exists j1, s2, we1.
+      split; [reflexivity|]. split; [exact Hfl1|]. split; [exact Hids1|]. split; [exact Hinv1|].
+      split; [congruence|]. split; [exact Hwe1'|intros _; apply Hwe0; exact Hk0].
+  - destruct (Hk1 ltac:(discriminate)) as [Hkpos ->].
+    destruct (skipn k (r :: l')) as [|r2 l2] eqn:Esk.
+    + (* everything written *)
+      destruct (proj1 laws s1 fl HR1) as (s2 & Hg & HR2). rewrite Hg.
+      assert (Hall : firstn k (r :: l') = r :: l') by (apply firstn_skipn_nil; exact Esk).
+      destruct fl; cbn [end_res]; exists j1, s2, we1; (split; [reflexivity|]); (split; [rewrite Hfl1, Hall; reflexivity|]);
+        (split; [exact Hids1|]); (split; [exact Hinv1|]); (split; [intros _; apply Hwe1; lia|]); (split; [exact Hwe1'|discriminate]).
+    + (* more pending *)
+      destruct (proj2 laws s1 r2 l2 fl HR1) as (s2 & Hg & HR2 & _). rewrite Hg.
+      assert (Hlen : length (skipn k (r :: l')) = (length (r :: l') - k)%nat) by apply skipn_length.
+      rewrite Esk in Hlen.
+      destruct (IH fuel cfg j1 s2 we1 (r2 :: l2) fl base Hmax HR2) as (j' & s' & we' & Hrun & Hfl' & Hids' & Hinv' & _ & Hn' & _).
+      * lia.
+      * lia.
+      * exact Hids1.
+      * rewrite Hcnt1. lia.
+      * exact Hinv1.
+      * exists j', s', we'. split; [exact Hrun|]. split.
+        { rewrite Hfl', Hfl1, <- Esk, <- app_assoc, firstn_skipn. reflexivity. }
+        split; [exact Hids'|]. split; [exact Hinv'|]. split; [intros _; apply Hn'; apply Hwe1; lia|].
+        split; [intros _; apply Hn'; apply Hwe1; lia|discriminate].
 Qed.
 
 End ServicePositions.
+
+(* C01_positions: Service.Write on a partition with [base] records, around any model.Iterator obeying the protocol
+   with the batch [evs] pending: the records of the events before the first oversize one are appended (all of
+   them when none is oversize), the call fails exactly when an event is oversize or the iterator fails; when
+   anything was appended the WriteEvent's StartPos is the position of record number base and EndPos the position
+   after the last appended record (= the end of the partition); when nothing was appended there is no event *)
+Theorem write_positions (T : Type) lit_get lit_next (RepL : T -> list levent -> bool -> Prop) (lawsL : iter_laws lit_get lit_next RepL) :
+  forall fuel cfg j s evs flL, 0 < max_chunk cfg -> RepL s evs flL -> (length evs < fuel)%nat -> ids_ok j ->
+  (N.of_nat (length (flat j) + length evs) < 4294967296)%N ->
+  exists j' s' we, sw_loop T (iw_get T lit_get (w_limit cfg)) (iw_next T lit_next) fuel fuel cfg j s None =
+                   Ok (j', s', we, has_big (w_limit cfg) evs || flL) /\
+    flat j' = flat j ++ map iw_rec (fit_prefix (w_limit cfg) evs) /\ ids_ok j' /\
+    match we with
+    | None => fit_prefix (w_limit cfg) evs = []
+    | Some (st, en) => fit_prefix (w_limit cfg) evs <> [] /\ pos_offset j' st = length (flat j) /\ pos_offset j' en = length (flat j')
+    end.
+Proof.
+  intros fuel cfg j s evs flL Hmax HR Hf Hids Hcnt.
+  set (acc := fit_prefix (w_limit cfg) evs).
+  assert (Hacc : (length (map iw_rec acc) <= length evs)%nat) by (rewrite map_length; apply fit_prefix_length).
+  assert (HRi : rep_iw T RepL (w_limit cfg) s (map iw_rec acc) (has_big (w_limit cfg) evs || flL))
+    by (exists evs, flL; repeat split; exact HR).
+  destruct (sw_loop_pos T _ _ _ (iw_laws T lit_get lit_next RepL lawsL (w_limit cfg)) fuel fuel cfg j s None _ _ (length (flat j))
+              Hmax HRi ltac:(lia) ltac:(lia) Hids ltac:(lia) eq_refl)
+    as (j' & s' & we & Hrun & Hfl & Hids' & Hinv & Hne & _ & Hnil).
+  exists j', s', we. split; [exact Hrun|]. split; [exact Hfl|]. split; [exact Hids'|].
+  destruct we as [[st en]|].
+  - destruct Hinv as (I1 & I2 & _). split; [|split; assumption].
+    intros E. rewrite E in Hnil. specialize (Hnil eq_refl). discriminate.
+  - destruct acc as [|e acc']; [reflexivity|]. exfalso. apply Hne; [discriminate|reflexivity].
+Qed.
